@@ -82,6 +82,10 @@ RW(i) ==
      [] i.mn = "xchg" -> Set(OpR(d) \cup OpR(s), OpWW(d) \cup OpWW(s), {})
      [] i.mn = "push" -> Set(OpR(d) \cup {"esp"}, stack, {})
      [] i.mn = "pop" -> Set(stack \cup OpWR(d), {"esp"} \cup OpWW(d), {})
+     [] i.mn = "leave" -> Set({"ebp", "mem[ebp]"}, {"esp", "ebp"}, {})
+     [] i.mn = "enter" -> Set({"esp", "ebp"}, {"esp", "ebp", "mem[esp]"}, {})
+     [] i.mn = "bswap" -> Set(OpR(d), OpWW(d), {})
+     [] i.mn = "xlat" -> Set({"eax", "ebx", "mem[eax,ebx]"}, {"eax"}, {})
      [] i.mn = "pushad" -> Set(allregs, stack, {})
      [] i.mn = "popad" -> Set(stack \cup (IF w = 16 THEN allregs ELSE {}), allregs, {})
      [] i.mn \in {"add", "sub", "and", "or", "xor"} -> Set(OpR(d) \cup OpR(s), OpWW(d) \cup (IF i.mn \in {"add", "sub"} THEN Flags6 ELSE Flags6 \ {"af"}),
@@ -161,10 +165,6 @@ Ext == <<
    E("cpuid", {"eax", "ecx"}, {"eax", "ebx", "ecx", "edx"}, {}),
    E("rdtsc", {}, {"eax", "edx"}, {}),
    E("cmpxchg8b qword ptr [ebx]", {"eax", "edx", "ebx", "ecx", "mem[ebx]"}, {"eax", "edx", "mem[ebx]", "zf"}, {}),
-   E("xlatb", {"eax", "ebx", "mem[eax,ebx]"}, {"eax"}, {}),
-   E("bswap eax", {"eax"}, {"eax"}, {}),
-   E("leave", {"ebp", "mem[ebp]"}, {"esp", "ebp"}, {}),
-   E("enter 8, 0", {"esp", "ebp"}, {"esp", "ebp", "mem[esp]"}, {}),
    E("pushfd", {"esp", "cf", "pf", "af", "zf", "sf", "df", "of"}, {"esp", "mem[esp]"}, {}),
    E("popfd", {"esp", "mem[esp]"}, {"esp", "cf", "pf", "af", "zf", "sf", "df", "of"}, {}),
    E("rep movsb", {"ecx", "esi", "edi", "df", "mem[esi]"}, {"ecx", "esi", "edi", "mem[edi]"}, {}),
